@@ -178,4 +178,13 @@ CHECKS["C07"] = {
     "note": "The VM's continuation is an arbitrary function of the listed fields in the model; dependence on interpreter-level state outside them is covered by the differential only. Known finding: await inside an async generator body cannot suspend.",
     "design_ref": "DESIGN.md §4 C07",
 }
+CHECKS["C17"] = {
+    "technique": "Lean 4 proof over M-Ffi (handle discipline of the C API: NULL arguments reported, release order irrelevant, values outlive contexts, duplicates independent, every touched object exists in a well-formed state) + call-by-call correspondence with the real C API + every sequence under valgrind memcheck",
+    "text": "touches_exist, null_context_reported / null_value_reported, free_commutes_ctx_free, getters_survive_ctx_free, dup_independent, wf_init are Lean theorems over the model of the data plane. Generated call sequences "
+            "(constructors, getters, properties under 12 key spellings incl. NULL, arrays, globals, dup, release of boxes and contexts in any order, NULL and survivors of released contexts as arguments) are executed by the real API "
+            "(linked with --features c-api) and by the model; every result token must agree and every model state must satisfy the well-formedness predicate. Full sequences add scripts, native callbacks re-entering the API, internal modules, "
+            "orders answered and released at once, promises and calls; all sequences run under valgrind memcheck (invalid read/write/free = violation) and every returned string is checked for NUL termination, UTF-8 validity and length.",
+    "note": "Memory safety is observed by memcheck on generated sequences, not proved; preservation of well-formedness by every model operation is evaluated per run, not proved. The script side (what natives/orders do inside the interpreter) is not modelled.",
+    "design_ref": "DESIGN.md §4 C17",
+}
 NOT_YET = {}
